@@ -91,7 +91,7 @@ func (w *worker) kindsAt(st state, di *docInfo) (kinds []string, k int) {
 			r := runExec(ex, di.text, ex.chunks(len(di.text)), xs)
 			w.evals++
 			if matchAny(seqs, &r) < 0 {
-				return classify(seqs[0], &r)
+				return classify(di, seqs[0], &r)
 			}
 		}
 		return nil
@@ -182,7 +182,10 @@ func (w *worker) minimise(st state, kind string) state {
 	return res
 }
 
-var leaf1 = &onode{kind: 'l', leaf: int64(1)}
+var (
+	leaf1 = &onode{kind: 'l', leaf: int64(1)}
+	leaf2 = &onode{kind: 'l', leaf: int64(2)}
+)
 
 func (o *onode) withKid(i int, k *onode) *onode {
 	n := &onode{kind: o.kind, keys: o.keys, kids: append([]*onode{}, o.kids...)}
@@ -213,6 +216,9 @@ func edits(o *onode) []*onode {
 		if !(k.kind == 'l' && k.leaf == int64(1)) {
 			out = append(out, o.withKid(i, leaf1))
 		}
+		if k.kind != 'l' {
+			out = append(out, o.withKid(i, leaf2))
+		}
 		for _, v := range edits(k) {
 			out = append(out, o.withKid(i, v))
 		}
@@ -238,10 +244,25 @@ func withTarget(ts []gens.JPExpr, i int, t gens.JPExpr) []gens.JPExpr {
 	return out
 }
 
-// simpler lists simpler fragments of the same family.
+// simpler lists simpler fragments: first of the same family, then the plain
+// index / member fragments a selecting fragment can stand for.
 func simpler(f gens.JPFrag) []gens.JPFrag {
 	var out []gens.JPFrag
+	plain := func() {
+		out = append(out, gens.JPNth(0), gens.JPNth(1), gens.JPChild("a"), gens.JPChild("x"))
+	}
 	switch f.K {
+	case "nth":
+		switch {
+		case f.N < -1:
+			out = append(out, gens.JPNth(-1))
+		case f.N > 0:
+			out = append(out, gens.JPNth(0))
+		}
+	case "child":
+		if f.Key != "a" {
+			out = append(out, gens.JPChild("a"))
+		}
 	case "union":
 		if len(f.U) == 1 {
 			if f.U[0].S != nil {
@@ -257,9 +278,20 @@ func simpler(f gens.JPFrag) []gens.JPFrag {
 			g.U = append(g.U, f.U[i+1:]...)
 			out = append(out, g)
 		}
+		plain()
 	case "slice":
 		if len(f.S) > 2 && f.S[2] != 1 {
 			out = append(out, gens.JPSlice(f.S[0], f.S[1]))
+		}
+		if !(len(f.S) == 1 && f.S[0] == 1) {
+			out = append(out, gens.JPSlice(1))
+		}
+		plain()
+	case "wild":
+		plain()
+	case "filter":
+		if eq2 := gens.FilterScripts()[2]; fragKey(gens.JPFilter(eq2)) != fragKey(f) {
+			out = append(out, gens.JPFilter(eq2)) // @ == 2
 		}
 	}
 	return out
@@ -305,6 +337,12 @@ func candidates(st state) []state {
 		}
 	}
 	// smaller document
+	if !(st.ord.kind == 'l' && st.ord.leaf == int64(1)) {
+		add(st.targets, leaf1)
+	}
+	if st.ord.kind != 'l' {
+		add(st.targets, leaf2)
+	}
 	for _, k := range st.ord.kids {
 		add(st.targets, k)
 	}
